@@ -26,7 +26,7 @@ static std::vector<blfasm::Bytes> ENC;      /* expected encoding per object */
 static blfasm::Bytes STREAM;
 static File * g_file;
 static size_t g_maxobj;
-static long g_peak_data, g_peak_queue;
+static long g_peak_data, g_peak_queue, g_peak_n, g_peak_heap, g_heap_base;
 
 static ObjectHeaderBase * mk(int i) {
     int size = SIZES[i];
@@ -69,6 +69,10 @@ static void on_point(int, const void *) {
     long sum = 0;
     for (auto & lc : f->m_uncompressedFile.m_data) sum += (long)lc->uncompressedFile.size();
     if (sum > g_peak_data) g_peak_data = sum;
+    long nc = (long)f->m_uncompressedFile.m_data.size();
+    if (nc > g_peak_n) g_peak_n = nc;
+    long hp = alloccap::live_bytes - g_heap_base;
+    if (hp > g_peak_heap) g_peak_heap = hp;
     long qs = (long)f->m_readWriteQueue.m_queue.size();
     if (qs > g_peak_queue) g_peak_queue = qs;
     if (!INV) return;
@@ -81,7 +85,7 @@ static void on_point(int, const void *) {
 }
 
 struct FileGuard {
-    explicit FileGuard(File * f) { g_file = f; }
+    explicit FileGuard(File * f) { g_file = f; g_heap_base = alloccap::live_bytes; }
     ~FileGuard() { g_file = nullptr; }
 };
 
@@ -187,6 +191,12 @@ static int run_config(const vx::Args & args) {
         SIZES.push_back((int)strtol(p, (char **)&p, 10));
         if (*p == ',') p++;
     }
+    long rep = args.num("rep", 1);
+    if (rep > 1) {
+        std::vector<int> one = SIZES;
+        SIZES.clear();
+        for (long i = 0; i < rep; i++) SIZES.insert(SIZES.end(), one.begin(), one.end());
+    }
     BUF = args.num("buf", 64);
     CONT = args.num("cont", 64);
     QCAP = args.num("q", 2);
@@ -208,9 +218,10 @@ static int run_config(const vx::Args & args) {
         prepare();
         ex.body = MODE == 'r' ? read_body : write_body;
         ex.explore();
-        char extra[128];
-        snprintf(extra, sizeof extra, "{\"peak_container_bytes\":%ld,\"peak_queue\":%ld}", g_peak_data, g_peak_queue);
-        ex.st.samples.push_back(extra);
+        char extra[256];
+        snprintf(extra, sizeof extra, "\"peak_container_bytes\":%ld,\"peak_containers\":%ld,\"peak_queue\":%ld,\"peak_heap\":%ld",
+                 g_peak_data, g_peak_n, g_peak_queue, g_peak_heap);
+        ex.st.extra = extra;
     }, scratch);
     return rc;
 }
